@@ -115,7 +115,7 @@ func genTree(g *model.Gen, leaves []leaf, depth int) (error, string, bool) {
 }
 
 func runC13(c *mon.Ctx) {
-	c.Rule("(1) every claim x every value class alone (exact class of the getter and of Validate required) and 2-4 combined faults (class of some offending claim required) on claims-sets built directly, CBOR-decoded and JSON-decoded; (2) every setter of both profiles and of the component x value classes (error class of a refusal); (3) component Validate/getters per field fault; (4) FilterError on generated error trees (leaves: the 11 exported sentinels, foreign and same-text errors; nodes: %w, %v, errors.Join, custom Unwrap() []error, custom Unwrap, custom Is) with ground truth computed on the generated tree. distinct_nontrivial = distinct (profile, claim=class) signatures / distinct tree shapes")
+	c.Rule("(1) every claim x every value class alone (exact class of the getter and of Validate required) and 2-4 combined faults (class of some offending claim required) on claims-sets of both base profiles AND of the two extension profiles embedding them (same rules, other canonical name), built directly, CBOR-decoded and JSON-decoded; (2) every setter of both profiles and of the component x value classes (error class of a refusal); (3) component Validate/getters per field fault; (4) FilterError on generated error trees (leaves: the 11 exported sentinels, foreign and same-text errors; nodes: %w, %v, errors.Join, custom Unwrap() []error, custom Unwrap, custom Is) with ground truth computed on the generated tree. distinct_nontrivial = distinct (profile, claim=class) signatures / distinct tree shapes")
 	g := model.NewGen(c.Seed*31337 + int64(c.Shard))
 	idx := 0
 	classOK := func(sig string, a *model.Claims, single bool) {
@@ -184,6 +184,16 @@ func runC13(c *mon.Ctx) {
 				c.Sig(sig)
 				c.Count("single-fault-cases")
 				classOK(sig, a, true)
+				// the same fault on the extension profile built on this base (same rules, other canonical name)
+				if claim != "profile" {
+					b := g.Valid(p)
+					if ext := maybeExt(g, b, 1); ext != "" {
+						v.Apply(b, g)
+						c.Sig(sig + ext)
+						c.Count("single-fault-cases-on-extension")
+						classOK(sig+ext, b, true)
+					}
+				}
 				if v.Name == "len31" || v.Name == "absent" && claim == "vsi" {
 					c.Sample("single", map[string]any{"sig": sig, "expected": a.Expect().String()})
 				}
@@ -195,7 +205,7 @@ func runC13(c *mon.Ctx) {
 	for i := 0; i < n; i++ {
 		p := 1 + g.R.Intn(2)
 		a, s := g.Mutated(p, 2+g.R.Intn(3))
-		sig := fmt.Sprintf("P%d|%s", p, s)
+		sig := fmt.Sprintf("P%d|%s%s", p, s, maybeExt(g, a, 4))
 		c.Sig(sig)
 		c.Count("combined-fault-cases")
 		classOK(sig, a, false)
